@@ -121,13 +121,15 @@ def splitPathSpec (path : List Char) (minsegs : Nat) (maxsegs : Option Nat) (res
   let m := effMax minsegs maxsegs
   if minsegs > m then .error .valueError
   else match path with
-    | '/' :: rest =>
-      match specSegs (splitAll '/' rest) m restWithLast with
-      | none => .error .valueError
-      | some segs =>
-        if segs.length < minsegs ∨ [] ∈ segs.take minsegs then .error .valueError
-        else .ok (segs.map some ++ List.replicate (m - segs.length) none)
-    | _ => .error .valueError
+    | [] => .error .valueError
+    | c :: rest =>
+      if c = '/' then
+        match specSegs (splitAll '/' rest) m restWithLast with
+        | none => .error .valueError
+        | some segs =>
+          if segs.length < minsegs ∨ [] ∈ segs.take minsegs then .error .valueError
+          else .ok (segs.map some ++ List.replicate (m - segs.length) none)
+      else .error .valueError
 
 /-! ## Part 4 — split_by_commas -/
 
@@ -202,21 +204,22 @@ def unquote : List Char → List Char
     else if e = 'n' then '\n' :: unquote r
     else if e = 'f' then '\x0c' :: unquote r
     else if e = 'r' then '\r' :: unquote r
+    else if e = '\n' then c :: unquote (e :: r)     -- `\\.` cannot match; group 4 takes the `\`
     else
+      have u := unquote r                            -- continuation after a two-character escape
       match r with
-      | [] => if e = '0' then ['\x00'] else if e = '\n' then [c, e] else [e]
+      | [] => if e = '0' then ['\x00'] else [e]
       | k :: r1 =>
         if isOct e ∧ k = '3' then e :: k :: unquote r1
-        else if e = '0' then '\x00' :: unquote r
+        else if e = '0' then '\x00' :: u
         else if (e = 'x' ∨ e = 'u') ∧ isHex k then
           match r1 with
-          | [] => e :: unquote r
+          | [] => e :: u
           | d :: r2 =>
             if (e = 'x' ∧ d = '2') ∨ (e = 'u' ∧ d = '4') then
               Char.ofNat (hexDigit k * 16 + hexDigit d) :: unquote r2
-            else e :: unquote r
-        else if e = '\n' then c :: unquote (e :: r)     -- `\\.` cannot match; group 4 takes the `\`
-        else e :: unquote r
+            else e :: u
+        else e :: u
 
 /-- `QuotedString | Word` at a position where whitespace has been skipped.  If the text
     starts with `"` and the quoted-string regex fails, `Word` fails too (`"` is excluded). -/
